@@ -46,7 +46,11 @@ SELF = os.path.abspath(__file__)
 # move assignment, dtor = user-provided destructor, adl = own noexcept ADL swap.
 # The first five are the categories named by the property; the last four exist so that every term of the
 # documented noexcept conditions and of the destructor rule can be told apart from its neighbours
-# (e.g. "nothrow move constructible && nothrow move assignable" versus "nothrow move assignable" alone).
+# ("nothrow move constructible && nothrow move assignable" versus "nothrow move assignable" alone, "nothrow move
+# constructible && nothrow swappable" versus either alone, "trivially destructible" versus "trivially copyable").
+#   traits (reloc, nothrow move ctor, nothrow move assign, nothrow swappable, trivially destructible):
+#   triv 1 1 1 1 1 | optout 0 1 1 1 1 | trdecl 1 1 1 1 0 | nontr 0 1 1 1 0 | throwmv 0 0 0 0 0 | trthrow 1 0 0 0 0
+#   thrctor 0 0 1 1 1 | thrasg 0 1 0 0 0 | adlswap 0 1 0 1 0
 CATS = {
     "triv":    dict(user=False, decl=None),
     "optout":  dict(user=False, decl=False),
@@ -54,7 +58,8 @@ CATS = {
     "nontr":   dict(user=True, decl=None, mc=True, ma=True, dtor=True),
     "throwmv": dict(user=True, decl=None, mc=False, ma=False, dtor=True),
     "trthrow": dict(user=True, decl=True, mc=False, ma=False, dtor=True),   # declared relocatable, throwing moves
-    "thrctor": dict(user=True, decl=None, mc=False, ma=True, dtor=False),   # trivially destructible, not copyable
+    # trivially destructible but not copyable; throwing move ctor yet nothrow swappable through its own ADL swap
+    "thrctor": dict(user=True, decl=None, mc=False, ma=True, dtor=False, adl=True),
     "thrasg":  dict(user=True, decl=None, mc=True, ma=False, dtor=True),
     "adlswap": dict(user=True, decl=None, mc=True, ma=False, dtor=True, adl=True),
 }
@@ -177,12 +182,13 @@ ROWS = {
                       ("td", "std::is_trivially_destructible<E>::value"),
                       ("nmc", "std::is_nothrow_move_constructible<E>::value"),
                       ("nma", "std::is_nothrow_move_assignable<E>::value"),
-                      ("nsw", "amc::is_nothrow_swappable<E>::value"),
+                      ("nsw", "c17::nothrow_swappable<E>::value"),          # independent of the library
+                      ("nsw_amc", "amc::is_nothrow_swappable<E>::value"),   # the library's (own code before C++17)
                       ("reloc", "amc::is_trivially_relocatable<E>::value")]
               + _vec_fields("v", "V")
               + [(c + "_" + k, e % t) for c, t in (("c0", "C0"), ("c1", "C1"), ("c2", "C2"))
                  for k, e in (("tc", "std::is_trivially_copyable<%s >::value"),
-                              ("nsw", "amc::is_nothrow_swappable<%s >::value"),
+                              ("nsw", "c17::nothrow_swappable<%s >::value"),
                               ("reloc", "amc::is_trivially_relocatable<%s >::value"))]
               + _set_fields("f0", "F0") + _set_fields("f1", "F1") + _set_fields("f2", "F2")),
     # per element type, C++17 on: the std::set that backs the default SmallSet
@@ -382,7 +388,9 @@ class Judge:
         self.tr = {}                  # element name -> traits dict (from its E row)
         self.vsz = {}                 # (element, stag) -> sizeof(amc::vector<E, Alloc, S>)
         self.ktc = {}                 # K rows
-        self.want = None              # restrict recorded cells (replay)
+        self.want = None              # replay: fact whose cells are all recorded in self.replayed, mismatching or not
+        self.replayed = None
+        self.cur_row = None           # row being judged (goes into the replay command of a mismatch)
 
     # -- bookkeeping ------------------------------------------------------------------------------------------------
     def cell(self, fam, fact, el, nclass, where, exp, obs, ok=None, expkey=None):
@@ -399,14 +407,13 @@ class Judge:
                 self.samples[fact] = dict(cell=where, fact=fact, expected=_show(exp), observed=_show(obs),
                                           config="/".join(self.cfg))
         if not ok or (self.want and self.want == fact):
-            rec = dict(fact=fact, cat=el.sigcat, nclass=nclass, cell=where, expected=_show(exp), observed=_show(obs),
-                       ok=bool(ok), row=self.cur_row)
+            rec = dict(fact=fact, cell=where, expected=_show(exp), observed=_show(obs), ok=bool(ok), row=self.cur_row,
+                       sig="c17|%s|%s|%s|%s" % (fact, el.sigcat, nclass, "exceeds-bound" if fam == "size" else
+                                                "exp%s-obs%s" % (_show(exp), _show(obs))))
             if not ok:
                 self.mism.append(rec)
             if self.want:
                 self.replayed.append(rec)
-
-    replayed = None
 
     def nx_cells(self, prefix, what, el, nclass, where, n, vals, idx, t, reloc):
         exp = exp_noexcept(n, reloc, t["nmc"], t["nma"], t["nsw"])
@@ -438,8 +445,6 @@ class Judge:
     def nclass(self, n, t):
         if n == 0:
             return "N0"
-        if n > 64:
-            return "N%d" % n
         return "Nfit" if n * t["sz"] <= self.ptr[0] else "Ninl"
 
     # -- rows -------------------------------------------------------------------------------------------------------
@@ -469,8 +474,9 @@ class Judge:
             cat = CATS[el.cat]
             if (t["sz"], t["al"]) != (el.s, el.a) or t["tc"] != (not cat["user"]):
                 raise RuntimeError("generator: %s is not the type its name says: %r" % (a, t))
-            if cat["user"] and (t["nmc"], t["nma"], t["td"]) != (cat["mc"], cat["ma"], not cat["dtor"]):
-                raise RuntimeError("generator: %s does not have the moves/dtor its category says: %r" % (a, t))
+            if cat["user"] and (t["nmc"], t["nma"], t["td"], t["nsw"]) != (
+                    cat["mc"], cat["ma"], not cat["dtor"], bool(cat.get("adl")) or (cat["mc"] and cat["ma"])):
+                raise RuntimeError("generator: %s does not have the moves/dtor/swap its category says: %r" % (a, t))
         t["reloc_exp"] = exp_reloc_elem(el, t["tc"])
         for cn, (ctc, cdecl) in CMPS.items():
             if bool(v[idx[cn + "_tc"]]) != ctc:
@@ -480,6 +486,8 @@ class Judge:
         self.tr[a] = t
         self.vsz[(a, "u32")] = v[idx["v_sz"]]
         self.cell("reloc", "elem.reloc", el, "-", a, t["reloc_exp"], bool(v[idx["reloc"]]))
+        # the trait the documented swap condition is written with (the library's own code before C++17)
+        self.cell("nx", "elem.is_nothrow_swappable", el, "-", a, t["nsw"], bool(v[idx["nsw_amc"]]))
         for cn in CMPS:
             self.cell("reloc", "cmp(%s).reloc" % cn, el, "-", a + "+" + cn, t[cn + "_reloc_exp"],
                       bool(v[idx[cn + "_reloc"]]))
@@ -579,8 +587,19 @@ def write_source(rows, tag):
 def decide(rows, cfg, src, tag, want=None):
     """Compile + run the TU under cfg = [compiler, standard]; judge every printed row.  Returns the Judge."""
     cxx, std = cfg
-    exe = vlib.build(src, ["-std=" + std, "-O0", "-w"], "c17-%s-%s-%s" % (tag, cxx.replace("+", "x"), std.replace("+", "x")),
-                     cxx=cxx, extra_inputs=[src], timeout=1800)
+    btag = "c17-%s-%s-%s" % (tag, cxx.replace("+", "x"), std.replace("+", "x"))
+    for attempt in (1, 2, 3):
+        try:
+            exe = vlib.build(src, ["-std=" + std, "-O0", "-w"], btag, cxx=cxx, extra_inputs=[src], timeout=1800)
+            break
+        except vlib.BuildError as e:
+            # A compiler that crashes (seen once: clang 14 dying with a stack dump while 16 builds ran on a loaded
+            # machine; the same command succeeds when repeated) says nothing about the tree: retry those.  An
+            # ill-formed instantiation fails with ordinary diagnostics and is reported at once.
+            crashed = any(s in e.out for s in ("Stack dump", "internal compiler error", "PLEASE submit a bug report",
+                                               "unable to rename temporary", "Killed", "Segmentation fault"))
+            if not crashed or attempt == 3:
+                raise
     rc, out, err = vlib.run([exe], timeout=600)
     if rc != 0:
         raise RuntimeError("table printer %s exited %d: %s" % (exe, rc, err[-500:]))
@@ -632,7 +651,7 @@ def support_rows(row):
 def run_chunk(spec):
     """Sub-process body: spec = {tag, rows, configs}.  Prints a JSON summary."""
     rows, tag = spec["rows"], spec["tag"]
-    res = dict(tag=tag, evals=0, per_config={}, by_fact={}, mism=[], overhead={}, min_slack=None, samples={},
+    res = dict(tag=tag, evals=0, per_config={}, by_fact={}, mism={}, overhead={}, min_slack=None, samples={},
                nrows=len(rows), builds=0)
     nontrivial = set()
     try:
@@ -651,9 +670,14 @@ def run_chunk(spec):
                 res["min_slack"] = j.min_slack
             for f, s in j.samples.items():
                 res["samples"].setdefault(f, s)
-            for m in j.mism:
-                m["cxx"], m["std"] = cfg
-                res["mism"].append(m)
+            for m in j.mism:      # aggregate per signature: first cell, count, configurations, a few more cells
+                g = res["mism"].setdefault(m["sig"], dict(first=dict(m, cxx=cfg[0], std=cfg[1]), count=0, configs=[],
+                                                          cells=[]))
+                g["count"] += 1
+                if key not in g["configs"]:
+                    g["configs"].append(key)
+                if len(g["cells"]) < 8 and m["cell"] not in g["cells"]:
+                    g["cells"].append(m["cell"])
             nontrivial |= j.nontrivial      # the union over configurations: a cell is counted once
     except vlib.BuildError as e:
         res["build_error"] = dict(cmd=e.cmd, out=e.out[-6000:])
@@ -745,20 +769,19 @@ def run(ctx):
             min_slack = r["min_slack"]
         for k, v in r["samples"].items():
             samples.setdefault(k, v)
-        for m in r["mism"]:
-            sig = "c17|%s|%s|%s|exp%s-obs%s" % (m["fact"], m["cat"], m["nclass"], m["expected"],
-                                                 "over" if str(m["expected"]).startswith("<=") else m["observed"])
-            groups.setdefault(sig, []).append(m)
+        for sig, g in r["mism"].items():
+            groups.setdefault(sig, []).append(g)
     for sig in sorted(groups):
-        ms = groups[sig]
-        m = ms[0]
+        gs = sorted(groups[sig], key=lambda g: g["first"]["cell"])
+        m = gs[0]["first"]
+        count = sum(g["count"] for g in gs)
+        configs = sorted(set(c for g in gs for c in g["configs"]))
+        cells = sorted(set(c for g in gs for c in g["cells"]))[:12]
         ctx.violation(sig, {"std": m["std"], "cxx": m["cxx"], "cell": m["cell"], "fact": m["fact"],
                             "expected": m["expected"], "observed": m["observed"], "cmd": replay_cmd(m),
-                            "cells_with_this_signature": len(ms),
-                            "configs": sorted(set(x["cxx"] + "/" + x["std"] for x in ms)),
-                            "more_cells": sorted(set(x["cell"] for x in ms))[:12]},
+                            "cells_with_this_signature": count, "configs": configs, "more_cells": cells},
                       "%s of %s: expected %s, compiler says %s (%s %s); %d cells share this signature"
-                      % (m["fact"], m["cell"], m["expected"], m["observed"], m["cxx"], m["std"], len(ms)))
+                      % (m["fact"], m["cell"], m["expected"], m["observed"], m["cxx"], m["std"], count))
 
     shp = shapes(tp["sizes"])
     coverage = {
@@ -772,7 +795,7 @@ def run(ctx):
                 "pointer), std::set-backed relocatable=false",
         "exhaustive": True,
         "samples": [samples[k] for k in sorted(samples)][:14],
-        "mismatching_cells": sum(len(v) for v in groups.values()),
+        "mismatching_cells": sum(g["count"] for v in groups.values() for g in v),
         "translation_units": len(specs),
         "builds": sum(r["builds"] for r in results),
         "rows_per_standard": sum(r["nrows"] for r in results),
